@@ -175,6 +175,7 @@ type Sim struct {
 	mtxVC    map[uintptr][]uint32
 	atomVC   map[uintptr][]uint32
 	sharedOn []bool // per site
+	conds    map[*sync.Cond][]*condWaiter
 
 	ClockJumps  int
 	TimerFires  int
@@ -209,6 +210,7 @@ func New(cfg Config) *Sim {
 	}
 	s.wgs = map[*sync.WaitGroup]int{}
 	s.onces = map[*sync.Once]int{}
+	s.conds = map[*sync.Cond][]*condWaiter{}
 	if cfg.SharedPkg != nil {
 		s.sharedOn = make([]bool, len(Sites))
 		for i := range Sites {
@@ -558,6 +560,44 @@ func (s *Sim) partnerFor(t *Task, p uintptr, tSends bool) (partner *Task, parm i
 	return nil, -1
 }
 
+// probeForeignCloses looks, when nothing is enabled, for channels that were closed by code
+// the instrumenter does not see (a context's cancel function, a standard-library goroutine):
+// for every parked receiver on an empty channel a non-blocking reflect receive is attempted.
+// It cannot take a value away from instrumented code (every instrumented sender is parked in
+// front of its send) and reports ok=false with a valid zero value exactly when the channel is
+// closed. Returns true if a closed channel was discovered.
+func (s *Sim) probeForeignCloses() bool {
+	found := false
+	probe := func(v reflect.Value, p uintptr) {
+		if !v.IsValid() || v.IsNil() || s.closed[p] || v.Len() > 0 {
+			return
+		}
+		if v.Type().ChanDir()&reflect.RecvDir == 0 {
+			return
+		}
+		if x, ok := v.TryRecv(); x.IsValid() && !ok {
+			s.closed[p] = true
+			found = true
+		}
+	}
+	for _, t := range s.Tasks {
+		if t.state != tsParked {
+			continue
+		}
+		switch t.pend.kind {
+		case gRecv:
+			probe(t.pend.ch, t.pend.chp)
+		case gSelect:
+			for i := range t.pend.cases {
+				if c := &t.pend.cases[i]; !c.send && !c.nilc {
+					probe(c.ch, c.chp)
+				}
+			}
+		}
+	}
+	return found
+}
+
 func (s *Sim) computeEnabled() []*Task {
 	en := s.enabled[:0]
 	for _, t := range s.Tasks {
@@ -595,6 +635,9 @@ func (s *Sim) Run(main func()) Result {
 		s.fireDue()
 		en := s.computeEnabled()
 		if len(en) == 0 {
+			if s.probeForeignCloses() {
+				continue
+			}
 			if s.advanceClock() {
 				continue
 			}
